@@ -5,6 +5,7 @@ import (
 	"errors"
 	"hash"
 	"os"
+	"sync"
 	"time"
 
 	"github.com/go-git/go-git/v6/plumbing/format/index"
@@ -15,7 +16,12 @@ import (
 
 // IndexStorage implements index read/write backed by the filesystem.
 type IndexStorage struct {
-	dir      *dotgit.DotGit
+	dir *dotgit.DotGit
+	// h is one hasher shared by every encode and decode; hmu serialises
+	// its users, since concurrent Index() calls on a cold cache would
+	// otherwise interleave their writes into it (bogus "invalid checksum"
+	// errors, or a panic inside the digest).
+	hmu      sync.Mutex
 	h        hash.Hash
 	cache    IndexCache
 	skipHash bool
@@ -60,6 +66,8 @@ func (s *IndexStorage) writeIndex(idx *index.Index) (err error) {
 		encOpts = append(encOpts, index.WithSkipHash())
 	}
 
+	s.hmu.Lock()
+	defer s.hmu.Unlock()
 	e := index.NewEncoder(bw, s.h, encOpts...)
 	return e.Encode(idx)
 }
@@ -114,8 +122,10 @@ func (s *IndexStorage) Index() (i *index.Index, err error) {
 		decOpts = append(decOpts, index.WithSkipHash())
 	}
 
+	s.hmu.Lock()
 	d := index.NewDecoder(f, s.h, decOpts...)
 	err = d.Decode(idx)
+	s.hmu.Unlock()
 	if err != nil {
 		return nil, err
 	}
